@@ -81,6 +81,10 @@ pub struct WorldCfg {
     /// async front-ends: instantiate the device with a radio buffer of SMALL_N bytes (board 0)
     #[serde(default)]
     pub small_buffer: bool,
+    /// full-stack configuration (async front-ends): the real lora-phy adapter, mode layer and chip driver on a
+    /// simulated chip instead of the stub radio
+    #[serde(default)]
+    pub phy: Option<crate::stack::PhyCfg>,
 }
 
 impl WorldCfg {
@@ -100,6 +104,7 @@ impl WorldCfg {
             key_seed: 1,
             dev_seed: 1,
             small_buffer: false,
+            phy: None,
         }
     }
 }
@@ -569,6 +574,9 @@ impl Shrinkable for MacCase {
             fields.push(c);
             let mut c = self.cfg.clone();
             c.small_buffer = false;
+            fields.push(c);
+            let mut c = self.cfg.clone();
+            c.phy = None;
             fields.push(c);
             let mut c = self.cfg.clone();
             c.fcnt_up0 = 0;
